@@ -505,10 +505,11 @@ const UNION_NAMES: [&str; 3] = ["SearchResult", "Pet", "Subject"];
 const ENUM_NAMES: [&str; 6] = ["Episode", "Color", "Status", "Unit", "HTTPMethod", "sort_order"];
 const SCALAR_NAMES: [&str; 3] = ["DateTime", "URL", "JSON"];
 const INPUT_NAMES: [&str; 7] = ["Filter", "Range", "Point", "Options", "Tree", "HTTPOptions", "page_input"];
-const FIELD_NAMES: [&str; 30] = [
+// (no two names of this pool may collide after snake-casing and keyword escaping: `Self` / `self` would)
+const FIELD_NAMES: [&str; 29] = [
     "name", "barks", "meows", "age", "weight", "isActive", "createdAt", "snake_case_field", "ownerId", "homepage",
     "score", "title", "body", "SCREAMING", "PascalField", "_leading", "field2", "nickName", "e_mail", "x",
-    "type", "in", "ref", "match", "loop", "yield", "Self", "self", "super", "crate",
+    "type", "in", "ref", "match", "loop", "yield", "Self", "super", "crate",
 ];
 const LINK_NAMES: [&str; 10] = ["owner", "friend", "friends", "bestFriend", "pets", "author", "items", "parent", "children", "related"];
 const ENUM_VALUES: [&str; 16] = [
